@@ -5,6 +5,7 @@
    C02-lower-bound, C02-zero-unset and C02-open-lower-bound are in /repo); the variants with a flag
    switched off describe the code before the corresponding repair. *)
 From LR Require Import lib.Base model.TmTree model.TmTreeML model.CIndex model.Selector.
+From LR Require Import gen.Consts.
 From LR Require Import proofs.TmTreeP proofs.TmTreeMLP proofs.CIndexP proofs.SelectorP proofs.SelectorInvP proofs.SelectorRunP.
 Open Scope Z_scope.
 
@@ -138,3 +139,8 @@ Print Assumptions C02_tree_add_in_order.
 Example C02_nonvacuous : hist_sorted nonvac_hist /\ hist_disciplined nonvac_hist /\ no_write_after_drop nonvac_hist /\
   length (fst (range_read impl_variant (run impl_variant nonvac_hist) (Some 0) (Some 20))) = 1006%nat.
 Proof. exact nonvac_ok. Qed.
+
+(* the constants the model repeats are the constants the Go sources have now (coq/gen/Consts.v is regenerated
+   from /repo on every run; an edited constant breaks this Example, i.e. a proof obligation) *)
+Example C02_constants : CIndex.sparse_space = go_sparseSpace /\ TmTree.max_recs_per_block = go_maxRecsPerBlock.
+Proof. split; reflexivity. Qed.
